@@ -249,6 +249,17 @@ func scenarioStart(c *hlib.RunCtx) *hlib.Violation {
 			return nil
 		}
 		s.Probe("one-call-fails")
+	} else if tokenState == 2 && t.Bool(1, 4) {
+		// ... or the stale token cannot be removed, however often it is tried (the
+		// directory became read-only for this user): nobody acquires it, everybody returns
+		errno := []syscall.Errno{syscall.EACCES, syscall.EROFS, syscall.EPERM}[t.Draw(3)]
+		s.FaultFn = func(c *simrt.FsCall) error {
+			if (c.Op == "remove" || c.Op == "create-excl" || c.Op == "writefile-open" || c.Op == "open-create") && strings.HasSuffix(c.Path, "upload.token") {
+				return errno
+			}
+			return nil
+		}
+		s.Probe("token-cannot-be-removed")
 	}
 
 	info := map[*simrt.Proc]*starter{}
